@@ -46,6 +46,7 @@ where C: ChannelProducer<'static, u32, D> + ChannelCommon<u32, D> + ChannelConsu
     let mut fut: Pin<Box<dyn Future<Output = bool> + Send>> = Box::pin(async move { matches!(fut.await, keen_retry::RetryResult::Ok { .. }) });
     let first = { let mut cx = Context::from_waker(&waker); fut.as_mut().poll(&mut cx) };
     if let Poll::Ready(ok) = first { rec(&mut out, 46, ok as i64, 0); out.push(9); return out }       // did not suspend (channel full?)
+    if case.get("same", 0) == 1 { return same_thread(chan, stream, fut, flag, out); }
     // meanwhile: a producer, a consumer, a length query
     let n_ok: &'static AtomicI64 = Box::leak(Box::new(AtomicI64::new(0)));
     let producer = std::thread::spawn(move || {
@@ -109,6 +110,42 @@ where C: ChannelProducer<'static, u32, D> + ChannelCommon<u32, D> + ChannelConsu
     if !wait_for(&consumer, 300) { leaked = true; }
     if !producer.is_finished() || !lenq.is_finished() { leaked = true; }
     if leaked { LEAKED.store(true, SeqCst); }
+    out.push(9);
+    out
+}
+
+/// same=1: everything happens on ONE thread of control, as on a current-thread runtime - while the send is suspended the buffer is filled
+/// up by plain sends, the setter is released, and the suspended send is polled BEFORE anything was consumed: it must give the thread back
+/// (answer Pending, or complete) so that the consumer gets to run; then the stream is drained and the send polled until it completes.
+/// Records: [48 fill_done n_ok] [49 first_poll_after_release(0 = Pending, 1 = Ready(Ok), 3 = Ready(refused), 2 = did not return) 0]
+/// [44 completed 0] [45 v 0]* everything delivered
+fn same_thread<C, D>(chan: &'static Arc<C>, stream: MutinyStream<'static, u32, C, D>, fut: Pin<Box<dyn Future<Output = bool> + Send>>, flag: &'static AtomicBool, mut out: Vec<i64>) -> Vec<i64>
+where C: ChannelProducer<'static, u32, D> + ChannelCommon<u32, D> + ChannelConsumer<'static, D> + Send + Sync + 'static,
+      D: AsI64 + Send + Sync + Debug + 'static {
+    let rec = |out: &mut Vec<i64>, code: i64, a: i64, b: i64| out.extend_from_slice(&[2, 0, code, a, b]);
+    let n_ok: &'static AtomicI64 = Box::leak(Box::new(AtomicI64::new(0)));
+    let filler = std::thread::spawn(move || { for j in 0..64u32 { if let keen_retry::RetryResult::Ok { .. } = chan.send(100 + j) { n_ok.fetch_add(1, SeqCst); } else { break } } });
+    let f_done = wait_for(&filler, DEADLINE_MS);
+    rec(&mut out, 48, f_done as i64, n_ok.load(SeqCst));
+    if !f_done { LEAKED.store(true, SeqCst); std::mem::forget(fut); out.push(9); return out }
+    flag.store(true, SeqCst);
+    let fut: &'static Mutex<Pin<Box<dyn Future<Output = bool> + Send>>> = Box::leak(Box::new(Mutex::new(fut)));
+    let answer: &'static AtomicI64 = Box::leak(Box::new(AtomicI64::new(2)));
+    let poll_once = move || { let waker = futures::task::noop_waker(); let mut cx = Context::from_waker(&waker);
+                              match fut.lock().unwrap().as_mut().poll(&mut cx) { Poll::Pending => 0, Poll::Ready(true) => 1, Poll::Ready(false) => 3 } };
+    let p = std::thread::spawn(move || { answer.store(poll_once(), SeqCst); });
+    let back = wait_for(&p, DEADLINE_MS);
+    rec(&mut out, 49, if back { answer.load(SeqCst) } else { 2 }, 0);
+    if !back { LEAKED.store(true, SeqCst); rec(&mut out, 44, 2, 0); out.push(9); return out }
+    // now the consumer runs, then the send again, in turns
+    let waker = futures::task::noop_waker(); let mut cx = Context::from_waker(&waker);
+    let mut stream = stream; let mut got = vec![]; let mut completed = answer.load(SeqCst);
+    for _round in 0..200 {
+        while let Poll::Ready(Some(item)) = stream.poll_next_unpin(&mut cx) { got.push(item.as_i64()); }
+        if completed == 0 { completed = poll_once(); } else if (got.len() as i64) >= n_ok.load(SeqCst) + (completed == 1) as i64 { break }
+    }
+    rec(&mut out, 44, if completed == 0 { 2 } else { completed }, 0);
+    for v in &got { rec(&mut out, 45, *v, 0); }
     out.push(9);
     out
 }
